@@ -143,13 +143,31 @@ class HopHooks(QHooks):
             raise AnalysisBroken('blast(): substdio_get target is not an object address')
         inh, pre, hops = self.ghost(E)
         got = g1(E, 'HOPS')
-        if got != hops:
+        if isinstance(got, int) and got > hops:
+            # counted more than the documented number: wrong whether the counter is stored eagerly or only at the end
             if self.bad is None:
-                self.bad = ('after this input the hop counter is %s, documented %s (header lines beginning with received/delivered, header ends at the first empty line)' % (got, hops), E.trace.list())
+                self.bad = ('after this input the hop counter is already %s, documented %s (header lines beginning with received/delivered, header ends at the first empty line)' % (got, hops), E.trace.list())
             E.kill()
             return 'noreturn'
         if hops >= self.CAP:
-            return 'noreturn'           # exploration bound: two counted lines
+            # exploration bound reached: finish the message with a fixed tail (no further header match possible) so that
+            # the count is compared where it is handed back
+            tail = [13, 10, 46, 13, 10]
+            k = g1(E, '$tail', 0)
+            if k >= len(tail):
+                return 'noreturn'
+            b = tail[k]
+            i2, p2 = inh, pre
+            if inh:
+                if len(p2) < 9:
+                    p2 = p2 + chr(b)
+                    if p2 == '\r\n':
+                        i2 = 0
+                if b == 10:
+                    p2 = ''
+            if not i2:
+                p2 = ''
+            return [Outcome(ret=fs(1), sets={chp: fs(b), '$gh': fs((i2, p2, hops)), '$tail': fs(k + 1)}, log='closing byte %r' % chr(b))]
         outs = []
         for b in self.ALPHA:
             i2, p2, h2 = inh, pre, hops
